@@ -74,7 +74,7 @@ var OutsideAtoms = []OutsideAtom{
 	{ID: "caparray", Kind: "stmt", Code: "var arr2 [4]uint64\n\tx += uint64(cap(arr2)) + uint64(len(arr2))", Site: "capExpr / lenExpr of an array"},
 	{ID: "hugeliteral", Kind: "stmt", Code: "x += (18446744073709551616 - 1) & 7", Site: "basicLiteral: int literals must be positive numbers (out of uint64 range)"},
 	{ID: "untypedconv", Kind: "stmt", Code: "const uc = 5\n\tx += uint64(uc) + uint64(len(\"abc\"))", Site: "integerConversion: conversion from untyped int"},
-	{ID: "mapconv", Kind: "stmt", Code: "type mm3 map[uint64]uint64\n\tm3 := map[uint64]uint64(mm3(m))\n\tx += m3[1]", Site: "exprSpecial: MapType as expression"},
+	{ID: "mapconv", Kind: "stmt", Code: "m3 := map[uint64]uint64(MapU(m))\n\tx += m3[1]", Site: "exprSpecial: MapType as expression"},
 	{ID: "sliceconv", Kind: "stmt", Code: "s4 := Bytes(bs)\n\ts5 := []byte(s4)\n\tx += uint64(len(s5))", Site: "conversion between slice types"},
 	{ID: "ptrconv", Kind: "stmt", Code: "ph := (*H)(p)\n\tx += ph.f", Site: "conversion to a pointer type"},
 	{ID: "timenow", Kind: "stmt", Code: "t0 := machine.TimeNow()\n\tif t0 == t0 {\n\t\tx += 1\n\t}\n\tmachine.Sleep(1)", Site: "packageMethod TimeNow / Sleep"},
@@ -107,9 +107,14 @@ var OutsideAtoms = []OutsideAtom{
 	{ID: "fieldofelem", Kind: "stmt", Code: "hs := make([]H, 2)\n\ths[1].f = 7\n\tx += hs[1].f + hs[0].f", Site: "refExpr: reference to other types of expressions"},
 	{ID: "addrofelemfield", Kind: "stmt", Code: "hs := make([]H, 2)\n\tpf := &hs[1].f\n\t*pf = 8\n\tx += hs[1].f", Site: "refExpr"},
 	{ID: "ptrtoparam", Kind: "stmt", Code: "pa := &y\n\t*pa = *pa + 1\n\tx += y", Site: "refExpr of a non-wrapped variable"},
-	{ID: "delete_nonmap", Kind: "stmt", Code: "type mm map[uint64]uint64\n\tvar mv mm = make(mm)\n\tmv[1] = 2\n\tdelete(mv, 1)\n\tx += uint64(len(mv))", Site: "callExpr: delete on non-map (named map type)"},
+	{ID: "delete_nonmap", Kind: "stmt", Code: "var mv MapU = MapU(m)\n\tdelete(mv, 1)\n\tx += uint64(len(mv)) + uint64(len(m))", Site: "callExpr: delete on non-map (named map type)"},
+	{ID: "delete_named_map_define", Kind: "stmt", Code: "mv := MapU(m)\n\tdelete(mv, 1)\n\tx += uint64(len(m))", Site: "callExpr: delete on non-map (named map type)"},
 	{ID: "copystring", Kind: "stmt", Code: "n2 := copy(bs, str)\n\tx += uint64(n2) + uint64(bs[0])", Site: "copyExpr"},
-	{ID: "appendmulti", Kind: "stmt", Code: "s = append(s, 1, 2)\n\tx += uint64(len(s))", Site: "callExpr append with several elements"},
+	{ID: "appendmulti", Kind: "stmt", Code: "var t []uint64\n\tt = append(t, 1, 2)\n\tx += uint64(len(t)) + t[1]", Site: "callExpr append with several elements"},
+	{ID: "appendmulti_three_exprs", Kind: "stmt", Code: "var t []uint64\n\tt = append(t, x, y+1, s[0])\n\tx += uint64(len(t))*100 + t[1] + t[2]", Site: "callExpr append with several elements"},
+	{ID: "appendmulti_bytes", Kind: "stmt", Code: "var tb []byte\n\ttb = append(tb, 1, z)\n\tx += uint64(len(tb)) + uint64(tb[1])", Site: "callExpr append with several elements"},
+	{ID: "append_no_element", Kind: "stmt", Code: "var t []uint64\n\tt = append(t)\n\tx += uint64(len(t))", Site: "callExpr append without an element"},
+	{ID: "append_string_spread", Kind: "stmt", Code: "var tb []byte\n\ttb = append(tb, str...)\n\tx += uint64(len(tb))", Site: "callExpr append of a string's bytes"},
 	{ID: "make3map", Kind: "stmt", Code: "mm2 := make(map[uint64]uint64, 10)\n\tmm2[1] = 5\n\tx += mm2[1]", Site: "makeExpr"},
 	{ID: "newarray", Kind: "stmt", Code: "pa2 := new([2]uint64)\n\tpa2[1] = 3\n\tx += pa2[1] + pa2[0]", Site: "newExpr zero_array"},
 	{ID: "structeq", Kind: "stmt", Code: "h3 := H{f: 1}\n\th4 := H{f: 1}\n\tif h3 == h4 {\n\t\tx += 4\n\t}", Site: "binExpr on structs"},
@@ -192,6 +197,12 @@ type KeyHolder struct {
 }
 
 type Counts map[string]uint64
+
+type MapU map[uint64]uint64
+
+type FnT func(uint64) uint64
+
+type PtrU *uint64
 
 type Bytes []byte
 
@@ -289,7 +300,7 @@ var surround = []string{
 	"x = x + 1", "s[1] = x", "p.f = p.f ^ x", "m[2] = x", "*q = *q + 1", "w += 3", "z ^= 5", "x = x*3 + y",
 	"if x > 5 {\n\t\tx = x - 1\n\t}", "if x%2 == 0 {\n\t\ts[2] = s[2] + 1\n\t} else {\n\t\tp.g += 1\n\t}",
 	"for sv := uint64(0); sv < 2; sv++ {\n\t\tx += sv\n\t}", "for _, sv2 := range s {\n\t\tx = x + sv2\n\t}",
-	"delete(m, 2)", "s = append(s, x)", "p.b += 1", "sideEffect0()",
+	"delete(m, 2)", "s[3] = s[0] + 1", "p.b += 1", "sideEffect0()",
 }
 
 // AtomPackageVariant: with rng != nil the statements before and after the atom are drawn at random.
